@@ -45,6 +45,7 @@ Definition se : string := "e".
 Definition sa : string := "a".
 Definition spct2f : string := "%2f".
 Definition spdd2 : string := "%252e%252e".
+Definition sp62 : string := "%62".
 
 (* the fixtures a request runs against (the harness builds exactly these and proves it
    with a CFix case per fixture in every shard: its snapshot of the store) *)
@@ -89,12 +90,17 @@ Definition fx1 : fixture :=
     ("/etc", true);
     ("/etc/secret", false) ].
 
-(* an empty bucket, a bucket named ".uploads", entries of the same names at the root *)
+(* an empty bucket, a bucket named ".uploads", a bucket named "%62" (which decodes to "b")
+   with an upload, entries of the same names at the root *)
 Definition fx2 : fixture :=
   [ ("/", true);
     ("/b", true);
     ("/b/obj", false);
     ("/buckets", true);
+    ("/buckets/%62", true);
+    ("/buckets/%62/.uploads", true);
+    ("/buckets/%62/.uploads/u1", true);
+    ("/buckets/%62/.uploads/u1/0001.part", false);
     ("/buckets/.uploads", true);
     ("/buckets/.uploads/u1", true);
     ("/buckets/.uploads/u1/0001.part", false);
@@ -182,10 +188,11 @@ Fixpoint heads_match (heads impl cand : list fcall) : bool :=
 
 Definition is_list_route (r : route) : bool := match r with RList _ _ _ _ => true | _ => false end.
 
-(* the buckets a request may legitimately touch: its own, and the one its copy source
-   names; a request whose bucket name is not an ordinary name may touch nothing *)
+(* the buckets a request may legitimately touch: its own (by its LITERAL name, also when
+   that has a "%"), and the one its copy source names; a request whose bucket name the
+   router must refuse ("", ".", "..") may touch nothing *)
 Definition allowed (q : req) : list string :=
-  if bad_bucket (q_bucket q) then []
+  if router_refuses (q_bucket q) then []
   else
   q_bucket q ::
   match q_route q with
@@ -223,7 +230,7 @@ Definition check (c : case) : outcome :=
   | CReq fxid q i_calls i_store i_status i_changed i_leak =>
       let fx := fx_of fxid in
       let b := q_bucket q in
-      let badb := bad_bucket b in
+      let badb := router_refuses b in
       let m_calls := map snd (calls fx q) in
       let cand := candidates fx q in
       let eff := flat_map (fun c => match c, effective c with
@@ -278,16 +285,16 @@ Definition check (c : case) : outcome :=
                              | None => true
                              end) m_calls &&
            Bool.eqb m_outside i_outside &&
-           (badb || Bool.eqb (m_up_calls || (m_up_cand && obj_uploads)) obj_uploads) &&
+           Bool.eqb (m_up_calls || (m_up_cand && obj_uploads)) obj_uploads &&
            chg_explained && leak_explained;
          o_prop := negb i_outside && negb i_changed && negb i_leak && negb obj_uploads;
          (* each failing part must lie in the trigger set of ITS finding: an escape needs a
             climbing request, a touched upload area needs a walk through ".uploads"; when
-            both fail, both triggers are required and finding 0 is reported *)
-         o_trig := if badb then Some 2%N
-                   else if (negb need0 || req_climbs q) && (negb need1 || req_enters_uploads q)
-                        then (if need0 then Some 0%N else if need1 then Some 1%N else None)
-                        else None;
+            both fail, both triggers are required and finding 0 is reported; what these two
+            do not explain is finding 2's when the bucket name has a "%" *)
+         o_trig := if (negb need0 || req_climbs q) && (negb need1 || req_enters_uploads q) && (need0 || need1)
+                   then (if need0 then Some 0%N else Some 1%N)
+                   else if odd_bucket b then Some 2%N else None;
          o_nontrivial := (i_status =? 2)%N |}
   | CFix fxid snap =>
       {| o_corr := fixture_eqb (tl (fx_of fxid)) snap;
